@@ -131,8 +131,8 @@ def _sends_result(e, f, c):
         return True
     for q in e.callees_of(c):
         cf = e.prog.funcs[q]
-        if any(isinstance(n, ast.Call) and isinstance(n.func, ast.Attribute) and n.func.attr == "put"
-               and isinstance(n.func.value, ast.Name) and n.func.value.id in cf.params for n in func_nodes(cf)):
+        # (the helper puts on its queue parameter -- `q.put(...)`, or through a local bound to `q.put`)
+        if any(isinstance(n, ast.Attribute) and n.attr == "put" and isinstance(n.value, ast.Name) and n.value.id in cf.params for n in func_nodes(cf)):
             if any(e.objs(f, arg) & a.resq for arg in c.args):
                 return True
     return False
